@@ -73,8 +73,18 @@ def _bind_args(callee: FuncInfo, e: Event) -> dict[str, Term]:
         if i < len(names):
             out[names[i]] = a
     for k, v in e.kwargs:
-        if k in names:
+        if k == "**":
+            d = unbox(v)
+            if d[0] == "dict" and all(kk[0] == "const" and isinstance(kk[1], str) for kk, _vv in d[1]):
+                for kk, vv in d[1]:
+                    if kk[1] in names:
+                        out[kk[1]] = vv
+            else:
+                out["**"] = v
+        elif k in names:
             out[k] = v
+    if any(a[0] == "star" for a in e.args):
+        out["*"] = next(a for a in e.args if a[0] == "star")
     return out
 
 
@@ -128,7 +138,10 @@ def rule_r1(repo: Repo, res: Result) -> None:
         ok = call.guard == TRUE and all(t == call.result for t in rets) and bool(rets)
         res.add("C04.R1", f"{tag}::pure delegation", ok, "returns get_evaluable_architecture(...) unconditionally" if ok else "the module-object entry point is not an unconditional delegation to the path entry point", where(call.fi, call.node), kind="structural")
         bound = _bind_args(ge, call)
-        for i, pname in enumerate(ge.param_names):
+        if "*" in bound or "**" in bound:
+            res.undecide("C04.R1", f"{tag}::forwarding", f"the delegation passes its arguments as `{show(bound.get('*') or bound.get('**'), 60)}`: cannot tell which option receives what", where(call.fi, call.node))
+            bound = {}
+        for i, pname in enumerate(ge.param_names if bound else []):
             a = bound.get(pname)
             if i < 2:
                 src = gm.param_names[i] if i < len(gm.param_names) else "?"
@@ -239,6 +252,31 @@ def _r1_same_api_calls(repo: Repo, res: Result, T, ge: FuncInfo, gm: FuncInfo) -
 # =========================================================================== R3
 
 
+def _path_vocabulary(d, leaves_ok: tuple, names_of: tuple = ()) -> bool:
+    """The dotted name consists only of path components of locations built from the given leaves (and `.name` of `names_of`): it
+    can be compared with the expected name; anything else (slices of split strings, unknown helpers) cannot."""
+
+    def loc_ok(l: Term) -> bool:
+        if l in leaves_ok:
+            return True
+        if l[0] in ("PARENT", "NOSUF", "ABS"):
+            return loc_ok(l[1])
+        if l[0] == "REL":
+            return loc_ok(l[1]) and loc_ok(l[2])
+        return False
+
+    for kind, v in d:
+        if kind == "parts":
+            if not loc_ok(v):
+                return False
+        elif kind == "item":
+            if not (v[0] == "attr" and v[2] in ("name", "stem") and (loc_ok(v[1]) or v[1] in names_of)):
+                return False
+        else:
+            return False
+    return True
+
+
 def _root_tests(sx: SymX, fs, rel: Term) -> dict[str, bool]:
     """Atoms of the formulas `fs` that test 'the path is the source root itself' -> polarity (True: atom true means root)."""
     out: dict[str, bool] = {}
@@ -300,8 +338,9 @@ def rule_r3(repo: Repo, res: Result) -> None:
             g, v = bad[0]
             d = dotted(v)
             if d is None:
-                if any(x[0] == "mcall" and x[2] in ("strip", "lstrip", "rstrip", "removesuffix", "removeprefix", "split", "rsplit", "partition", "rpartition") for x in subterms(v)) or True:
-                    res.undecide("C04.R3", key + " [naming shape]", f"cannot read `{show(v, 160)}` as a dotted name", wh)
+                res.undecide("C04.R3", key + " [naming shape]", f"cannot read `{show(v, 160)}` as a dotted name", wh)
+            elif not _path_vocabulary(d, (rel[1], root, strip_abs(rel[1]))):
+                res.undecide("C04.R3", key + " [naming shape]", f"cannot compare the name `{show_dotted(d)}` with `{show_dotted(want)}`", wh)
             else:
                 why = "does not start with the root directory's name" if not d or d[0] != want[0] else "is not the path relative to the root with the suffix removed, one component per path part"
                 res.add("C04.R3", key + " [naming shape]", False, f"the module name is `{show_dotted(d)}`: it {why} (expected `{show_dotted(want)}`)", wh, kind="structural")
@@ -330,65 +369,88 @@ def rule_r3(repo: Repo, res: Result) -> None:
 # =========================================================================== R4
 
 
+def _slice_of(t: Term):
+    """(sequence, lower, upper) of `s[lo:hi]` with constant bounds (None when absent); (t, None, None) for a plain sequence."""
+    if t[0] == "slice" and is_const(t[4], None) and all(x[0] == "const" and (x[1] is None or isinstance(x[1], int)) for x in (t[2], t[3])):
+        return t[1], t[2][1], t[3][1]
+    return t, None, None
+
+
 def _chain_pos(t: Term):
-    """(sequence, loop id, offset, range descriptor) if `t` is the element of a sequence at a loop-dependent position."""
+    """(sequence, loop id, offset, mode) if `t` is the element of a sequence at a loop-dependent position.
+
+    mode: "pairs"  - the loop visits all consecutive pairs (s[j], s[j+1]), offset 0 = first, 1 = second member
+          ("each", lo, hi) - the loop visits every element of s[lo:hi]
+          ("range", args)  - s[i + offset] for i in range(*args)"""
     if t[0] == "elem":
         src, k = t[1], t[2]
-        if src[0] == "slice":
-            base, lo, hi, step = src[1], src[2], src[3], src[4]
-            if is_const(step, None) and is_const(lo, None) and is_const(hi, -1):
-                return base, k, 0, "zip"
-            if is_const(step, None) and is_const(lo, 1) and is_const(hi, None):
-                return base, k, 1, "zip"
+        if src[0] == "call" and src[1] in (("builtin", "zip"), ("builtin", "enumerate"), ("builtin", "range")):
             return None
-        if src[0] == "call" and src[1][0] == "lib" and src[1][1] in ("itertools.pairwise", "more_itertools.pairwise"):
-            return None
-        return src, k, 0, "zip"
+        s_, lo, hi = _slice_of(src)
+        return s_, k, 0, ("each", lo, hi)
     if t[0] == "idx":
         base, i = t[1], t[2]
-        if base[0] == "elem" and base[1][0] == "call" and base[1][1][0] == "lib" and base[1][1][1].endswith("pairwise") and len(base[1][2]) == 1 and i[0] == "const" and i[1] in (0, 1):
-            return base[1][2][0], base[2], i[1], "zip"
+        if base[0] == "elem" and base[1][0] == "call" and i[0] == "const" and i[1] in (0, 1):
+            it = base[1]
+            if it[1] == ("builtin", "zip") and len(it[2]) == 2:
+                a, b = _slice_of(it[2][0]), _slice_of(it[2][1])
+                if a[0] == b[0] and b[1:] == (1, None) and a[1:] in ((None, -1), (None, None)):
+                    return a[0], base[2], i[1], "pairs"
+                return None
+            if it[1][0] == "lib" and it[1][1].endswith("pairwise") and len(it[2]) == 1:
+                return it[2][0], base[2], i[1], "pairs"
         off = 0
         if i[0] == "binop" and i[1] in ("+", "-") and i[3][0] == "const" and isinstance(i[3][1], int):
             off = i[3][1] if i[1] == "+" else -i[3][1]
             i = i[2]
-        if i[0] == "elem" and i[1][0] == "call" and i[1][1] == ("builtin", "range"):
+        if i[0] == "elem" and i[1][0] == "call" and i[1][1] == ("builtin", "range") and not i[1][3]:
             return base, i[2], off, ("range", i[1][2])
     return None
 
 
 def _len_offset(t: Term, s: Term):
     """c if `t` is `len(s) + c`, else None."""
-    if t == ("call", ("builtin", "len"), (s,), ()):
+    ln = ("call", ("builtin", "len"), (s,), ())
+    if t == ln:
         return 0
-    if t[0] == "binop" and t[1] in ("+", "-") and t[2] == ("call", ("builtin", "len"), (s,), ()) and t[3][0] == "const" and isinstance(t[3][1], int):
+    if t[0] == "binop" and t[1] in ("+", "-") and t[2] == ln and t[3][0] == "const" and isinstance(t[3][1], int):
         return t[3][1] if t[1] == "+" else -t[3][1]
     return None
 
 
-def _covers_all_pairs(parent, child) -> bool:
-    """The loop visits (s[j], s[j+1]) for every j in 0 .. len(s) - 2."""
-    s1, k1, o1, r1 = parent
-    s2, k2, o2, r2 = child
-    if unbox(s1) != unbox(s2) and s1 != s2 or k1 != k2 or o2 != o1 + 1:
-        return False
-    if r1 == "zip" and r2 == "zip":
-        return True
-    if isinstance(r1, tuple) and r1 == r2:
-        args = r1[1]
+def _index_span(pos):
+    """(first index, last index relative to len(s)) visited by a position: e.g. (0, -2) = s[0] .. s[len-2]; None if unknown."""
+    s_, _k, off, mode = pos
+    if mode == "pairs":
+        return (off, -2 + off)
+    if mode[0] == "each":
+        lo, hi = mode[1], mode[2]
+        if lo is not None and lo < 0 or hi is not None and hi >= 0:
+            return None
+        return (lo or 0, -1 if hi is None else hi - 1)
+    if mode[0] == "range":
+        args = mode[1]
         start: Term = ("const", 0)
         if len(args) == 1:
             stop = args[0]
         elif len(args) == 2:
             start, stop = args
         else:
-            return False
-        if start[0] != "const" or not isinstance(start[1], int):
-            return False
-        c = _len_offset(stop, s1)
-        # first pair index: start + o1 == 0 ; last: (len + c - 1) + o1 == len - 2
-        return c is not None and start[1] + o1 == 0 and c - 1 + o1 == -2
-    return False
+            return None
+        c = _len_offset(stop, s_)
+        if start[0] != "const" or not isinstance(start[1], int) or c is None:
+            return None
+        return (start[1] + off, c - 1 + off)
+    return None
+
+
+def _covers_all_pairs(parent, child) -> bool:
+    """The loop visits (s[j], s[j+1]) for every j in 0 .. len(s) - 2."""
+    if parent[0] != child[0] or parent[1] != child[1] or child[2] != parent[2] + 1:
+        return False
+    if parent[3] != child[3] or parent[3][0] == "each":
+        return False
+    return _index_span(parent) == (0, -2)
 
 
 class _Names:
@@ -531,43 +593,65 @@ def rule_r4(repo: Repo, res: Result) -> None:
         ok = not any(kd.startswith("IMPORTEE") for kd in kinds)
         res.add("C04.R4", repo.key(e.fi, stmt_of(e.node)) + f" [node from {kinds or ['?']}]", ok, "nodes are created from scanned modules / importers and their ancestors" if ok else f"`{norm(e.node, 60)}` creates a node from an *imported* name ({show(next(s[1] for s in src if s[0].startswith('IMPORTEE')), 100)}): names that are not files or directories of the scanned tree (relative import parts, functions, classes) become modules", where(e.fi, e.node), kind="flow")
     res.floor("C04.R4.nodes", 2, k)
-    # ---- every scanned module becomes a node
-    direct = [(e, a) for e, a in node_events if [s[0] for s in names.sources(a)] == ["SCANNED"]]
-    if not direct:
-        res.add("C04.R4", f"{tag}::every scanned module becomes a node", False, "no node is created from the elements of the module list", where(init, init.node), kind="structural")
-    else:
-        verdicts = [unconditional(e) for e, _a in direct]
-        ok = any(v[0] for v in verdicts)
-        e0 = direct[0][0]
-        res.add("C04.R4", f"{tag}::every scanned module becomes a node", ok, "every element of the module list becomes a node" if ok else f"not every scanned module becomes a node: {verdicts[0][1]}", where(e0.fi, e0.node), kind="structural")
-    # ---- ancestors: nodes and consecutive inherits edges along get_parent_modules(module) + [module]
-    chains = []
+    # ---- the hierarchy of every scanned module: get_parent_modules(module) + [module]
+    def chain_of(pos):
+        """(module symbol, 'full' | 'parents') if the position walks the ancestor chain of a scanned module."""
+        parts = seq(pos[0])
+        if len(parts) == 2 and parts[0][0] == "many" and parts[1][0] == "one":
+            anc, mod = parts[0][1], parts[1][1]
+            full = True
+        elif len(parts) == 1 and parts[0][0] == "many":
+            anc, mod, full = parts[0][1], None, False
+        else:
+            return None
+        if not (anc[0] == "call" and anc[1] == ("fn", gpm.fq) and len(anc[2]) == 1):
+            return None
+        if mod is None:
+            mod = anc[2][0]
+        sym = names.symbol(mod)
+        if anc[2] != (mod,) or sym is None or sym[0] != "SCANNED":
+            return None
+        return mod, "full" if full else "parents"
+
+    # which members of the chain become nodes / which scanned modules become nodes directly
+    direct = [(e, a) for e, a in node_events if [s_[0] for s_ in names.sources(a)] == ["SCANNED"]]
+    child_ok, child_why = False, "no node is created from the elements of the module list"
+    for e, _a in direct:
+        okc, why = unconditional(e)
+        if okc:
+            child_ok = True
+            break
+        child_why = why
+    parents_ok, parents_why = False, "no node is created for the ancestors of a scanned module (packages without own files are missing)"
+    for e, a in node_events:
+        pos = _sym_pos(names, a)
+        if pos is None:
+            continue
+        ch = chain_of(pos)
+        span = _index_span(pos)
+        if ch is None or span is None:
+            continue
+        okc, why = unconditional(e)
+        last_parent = -2 if ch[1] == "full" else -1
+        if span[0] == 0 and span[1] >= last_parent:
+            parents_ok, parents_why = (True, "") if okc else (parents_ok, why if not parents_ok else parents_why)
+        if ch[1] == "full" and span[1] == -1 and span[0] in (0, 1) and okc:
+            child_ok = True
+    e0 = direct[0][0] if direct else None
+    res.add("C04.R4", f"{tag}::every scanned module becomes a node", child_ok, "every element of the module list becomes a node" if child_ok else f"not every scanned module becomes a node: {child_why}", where(e0.fi, e0.node) if e0 else where(init, init.node), kind="structural")
+    # consecutive inherits edges
+    inherit_edges = [(e, a, b, inh) for e, a, b, inh in edge_events if inh is not None and not is_const(inh, False)]
+    best = None
     for e, a, b, inh in edge_events:
         pa, pb = _sym_pos(names, a), _sym_pos(names, b)
-        if pa is None or pb is None:
+        if pa is None or pb is None or pa[0] != pb[0]:
             continue
-        srcs = names.sources(pa[0])
-        if {s[0] for s in srcs} != {"SCANNED"}:
+        if {s_[0] for s_ in names.sources(pa[0])} != {"SCANNED"}:
             continue
-        chains.append((e, pa, pb, inh))
-    if not chains:
-        res.add("C04.R4", f"{tag}::hierarchy edges of scanned modules", False, "no edge is created between consecutive members of a scanned module's ancestor chain", where(init, init.node), kind="structural")
-        return
-    best = None
-    for e, pa, pb, inh in chains:
-        s = pa[0]
-        parts = seq(s)
         problems = []
-        mod = None
-        if len(parts) == 2 and parts[0][0] == "many" and parts[1][0] == "one":
-            mod = parts[1][1]
-            anc = parts[0][1]
-            if not (anc[0] == "call" and anc[1] == ("fn", gpm.fq) and anc[2] == (mod,)):
-                problems.append(f"the ancestors are `{show(anc, 80)}`, not all parent modules get_parent_modules(module) of the module")
-            if names.symbol(mod) is None or names.symbol(mod)[0] != "SCANNED":
-                problems.append(f"the chain ends in `{show(mod, 60)}`, not in the scanned module")
-        else:
-            problems.append(f"the linked chain is `{show(s, 100)}`, not get_parent_modules(module) + [module]")
+        ch = chain_of(pa)
+        if ch is None or ch[1] != "full":
+            problems.append(f"the linked chain is `{show(pa[0], 100)}`, not get_parent_modules(module) + [module] of the scanned module")
         if not _covers_all_pairs(pa, pb):
             problems.append("the loop does not visit every consecutive (parent, child) pair of the chain")
         if not (inh is not None and is_const(inh, True)):
@@ -575,21 +659,22 @@ def rule_r4(repo: Repo, res: Result) -> None:
         okc, why = unconditional(e)
         if not okc:
             problems.append(f"the edge creation is not unconditional: {why}")
-        # parents become nodes in the same loop
-        parent_nodes = [(ne, na) for ne, na in node_events if _sym_pos(names, na) is not None and _sym_pos(names, na)[:3] == pa[:3]]
-        if not parent_nodes:
-            problems.append("no node is created for the parent of each pair (ancestor packages without own files are missing)")
-        else:
-            v = [unconditional(ne) for ne, _ in parent_nodes]
-            if not any(x[0] for x in v):
-                problems.append(f"the ancestor nodes are not created unconditionally: {v[0][1]}")
         cand = (len(problems), e, problems)
         if best is None or cand[0] < best[0]:
             best = cand
-    assert best is not None
+    ctag = f"{tag}::ancestors of every scanned module: nodes and consecutive parent->child hierarchy edges"
+    if best is None:
+        if inherit_edges:
+            e = inherit_edges[0][0]
+            res.undecide("C04.R4", ctag, f"cannot recognise how `{norm(e.node, 60)}` links a scanned module to its ancestors", where(e.fi, e.node))
+        else:
+            res.add("C04.R4", ctag, False, "no hierarchy (inherits=True) edge is created between a scanned module and its ancestors", where(init, init.node), kind="structural")
+        return
     _n, e, problems = best
+    if not parents_ok:
+        problems = problems + [f"the ancestor nodes are not created for every scanned module: {parents_why}"]
     ok = not problems
-    res.add("C04.R4", f"{tag}::ancestors of every scanned module: nodes and consecutive parent->child hierarchy edges", ok, "every scanned module is linked to all its ancestors: each consecutive (ancestor, descendant) pair gets a node and an inherits=True edge" if ok else "scanned modules are not linked to all their ancestors: " + "; ".join(problems), where(e.fi, e.node), kind="structural")
+    res.add("C04.R4", ctag, ok, "every scanned module is linked to all its ancestors: each consecutive (ancestor, descendant) pair gets a node and an inherits=True edge" if ok else "scanned modules are not linked to all their ancestors: " + "; ".join(problems), where(e.fi, e.node), kind="structural")
 
 
 def _sym_pos(names: _Names, t: Term):
@@ -643,6 +728,16 @@ def _concretise(sx: SymX, t: Term, facts: dict, internal: Term, depth: int = 0):
             out += list(sub)
             glue = True
         return tuple(out)
+    if t[0] == "mcall" and t[2] == "join" and is_const(t[1], ".") and len(t[3]) == 1:
+        out2: list = []
+        for kind, x in seq(t[3][0]):
+            if kind != "one":
+                return None
+            sub = _concretise(sx, x, facts, internal, depth + 1)
+            if sub is None:
+                return None
+            out2 += list(sub)
+        return tuple(out2)
     if t[0] in ("param", "attr", "elem", "idx", "mcall", "call", "loopvar"):
         return (("s", t),)
     return None
@@ -686,6 +781,9 @@ def _name_symbols(sx: SymX, t: Term, internal: Term, depth: int = 0) -> list[Ter
     elif t[0] == "binop" and t[1] == "+":
         add(_name_symbols(sx, t[2], internal, depth + 1))
         add(_name_symbols(sx, t[3], internal, depth + 1))
+    elif t[0] == "mcall" and t[2] == "join" and is_const(t[1], ".") and len(t[3]) == 1 and all(k == "one" for k, _x in seq(t[3][0])):
+        for _k, x in seq(t[3][0]):
+            add(_name_symbols(sx, x, internal, depth + 1))
     elif t[0] != "const":
         out.append(t)
     return out
@@ -758,6 +856,9 @@ def rule_r5(repo: Repo, res: Result) -> None:
             elif any(d is None for d in ds):
                 v = main[ds.index(None)][1]
                 res.undecide("C04.R5", key + " [source]", f"cannot read the prefix `{show(v, 160)}` as a dotted path", where(e.fi, e.node))
+            elif any(d != want and not _path_vocabulary(d, (M, R)) for d in ds):
+                d = next(d for d in ds if d != want and not _path_vocabulary(d, (M, R)))
+                res.undecide("C04.R5", key + " [source]", f"cannot compare the prefix `{show_dotted(d)}` with module_path.parent relative to root_path.parent", where(e.fi, e.node))
             elif any(d != want for d in ds):
                 d = next(d for d in ds if d != want)
                 res.add("C04.R5", key + " [source]", False, f"the absolute-import prefix is `{show_dotted(d)}`: not module_path.parent relative to root_path.parent in dotted notation", where(e.fi, e.node), kind="structural")
